@@ -168,6 +168,20 @@ theorem retain_iff (p : Policy) (sh : Shared) :
   unfold retain
   by_cases he : p.enabled = true <;> by_cases hr : sh.refs = 0 <;> simp [he, hr]
 
+/-- **The policy grants exactly what was configured**: for every valid mode
+string, every kind's cap in the policy every pipeline and resolver is built
+from is the configured value, or the default where the configuration says 0 —
+no dimension is raised to fit another (an aggregate DNSSEC budget below a
+per-object allowance stays what the operator wrote). -/
+theorem policy_caps_are_configured (mode : String) (raw dflt : KTab Nat) (p : Policy)
+    (h : policyFromConfig mode raw dflt = some p) (k : Kind) :
+    p.caps.get k = normCap (raw.get k) (dflt.get k) := by
+  unfold policyFromConfig at h
+  split at h
+  · cases h
+  · cases h
+    cases k <;> rfl
+
 /-! ### the attempt guard -/
 
 /-- **At most `n` attempts per (question, endpoint, transport) tuple** for every
@@ -190,6 +204,18 @@ theorem attempt_limit_fact : 1 ≤ SdnsVerif.Gen.C12.max_resolution_attempts ∧
 `Frame.mu`, whichever of the six re-entry paths the environment forces. -/
 theorem resolve_step_decreases {f f' : Frame} (h : FStep f f') : f'.mu < f.mu :=
   fstep_decreases h
+
+/-- **A restart keeps the request tree's ledger.** None of the ways `resolve`
+re-enters itself — in particular the parent-detection restart without
+minimisation, which builds a fresh `resolveState` — drops `rs.work`: along every
+run of a frame that started with the ledger, every `exchange` debits. -/
+theorem restart_keeps_ledger {f g : Frame} {n : Nat} (h : FRun f n g) (hw : f.work = true) :
+    g.exchangeDebits = true := by
+  induction h with
+  | nil f => exact hw
+  | cons hs _ ih =>
+    apply ih
+    cases hs <;> exact hw
 
 /-- **One frame terminates, with an explicit bound.** Whatever the upstream
 servers answer, `resolve` re-enters itself at most
@@ -325,6 +351,19 @@ theorem latched_rejection_not_cacheable (p : Policy) (hm : p.mode = .enforce) (l
   unfold cacheableFailure
   simp [this]
 
+/-- **… also when the budget runs out inside the cache's own alias chase.** The
+downstream answer reached the cache writer with the budget intact (`sh` has
+no latched rejection); the chase then spends `chase` against the same ledger.
+If that leaves a latched rejection the failure is not admitted to the shared
+cache — the decision looks at the ledger after the chase, not at a snapshot
+taken before it. -/
+theorem chased_budget_failure_not_cached (p : Policy) (sh : Shared) (chase : List ApiOp)
+    (cErr bEff mark : Bool)
+    (h : enforcementError p (chase.foldl (fun s op => (apiStep p s op).1) sh) ≠ .ok) :
+    chasedFailureCacheable p sh chase cErr bEff mark = false := by
+  unfold chasedFailureCacheable cacheableFailure
+  simp [h]
+
 /-- every error class the resolver marks as request-local is one the property
 lists (budget, attempt limit, probe limit, nesting bound, cancellation, deadline). -/
 theorem request_local_classes (e : ErrClass) : e.isRequestLocal = true ↔ e ≠ .other := by
@@ -381,7 +420,9 @@ context with `depth+1` before the internal exchange; `processDelegation` and
 they re-enter `resolve` (`FStep.descend` / `FStep.cached`); `rs.level++` and
 `rs.nomin = true` outside the cached descent happen only under `minimized`
 (`FStep.levelUp` / `FStep.nominRetry`); NS-address lookups consult `checkLoop`
-first; the cache's alias chase (`additionalAnswer`) re-checks the request
+first; every `resolveState` literal in resolver.go carries `work` (`restart_keeps_ledger`);
+`cacheableResolutionFailure` reads the ledger itself when it decides, taking no
+snapshot parameter (`chased_budget_failure_not_cached`); the cache's alias chase (`additionalAnswer`) re-checks the request
 deadline on every hop before it starts another internal exchange — the guard
 that turns `request_tree_terminates`' astronomically large bound into "stops at
 the query deadline" when no budget is enforced (see `chase_stops_at_deadline`). -/
@@ -392,7 +433,9 @@ theorem termination_guards_shape :
     SdnsVerif.Gen.C12.shape_level_up_only_when_minimized = true ∧
     SdnsVerif.Gen.C12.shape_nomin_retry_only_when_minimized = true ∧
     SdnsVerif.Gen.C12.shape_checkloop_before_ns_lookup = true ∧
-    SdnsVerif.Gen.C12.shape_chase_checks_deadline = true := by decide
+    SdnsVerif.Gen.C12.shape_chase_checks_deadline = true ∧
+    SdnsVerif.Gen.C12.shape_resolvestate_literals_carry_work = true ∧
+    SdnsVerif.Gen.C12.shape_cacheable_reads_ledger_at_decision = true := by decide
 
 /-! ### non-vacuity -/
 
@@ -434,6 +477,13 @@ example : (verifyRRset false ⟨4, 8, 32⟩ ((List.range 8).map fun _ => (4, non
 -- the valid signature is third, its key second: 4 + 4 + 2 operations exceed the cap of 8 before it is reached
 example : verifyRRset true ⟨4, 8, 32⟩ [(4, none), (4, none), (4, some 1)] 0 0 = (8, 8, .work .rrsetSig) := by decide
 example : verifyRRset true ⟨4, 12, 32⟩ [(4, none), (4, none), (4, some 1)] 0 0 = (10, 10, .verified) := by decide
+
+-- the budget is intact before the chase and gone after it: not cacheable
+example : chasedFailureCacheable pol2 {} [.debit .internal true, .debit .internal true] false false false = false := by decide
+example : chasedFailureCacheable pol2 {} [.debit .internal true] false false false = true := by decide
+-- an aggregate below the per-object default stays as configured
+example : (policyFromConfig "enforce" (KTab.ofList 0 [0, 0, 0, 0, 3, 2, 0, 0]) (KTab.ofList 0 [128, 32, 4, 8, 32, 32, 32, 32])).map
+    (fun p => p.caps.toList) = some [128, 32, 4, 8, 3, 2, 32, 32] := by decide
 
 -- a chase that took three hops, then the deadline passed: the next two hop attempts start nothing
 example : (chaseRun {} [.hop, .hop, .hop, .deadline, .hop, .hop]).started = 3 := by decide
